@@ -165,11 +165,13 @@ fn any_damage(rng: &mut u64, image: &Image, frames: &[crate::iotrace::FrameInfo]
             let numbers: Vec<u64> = files.iter().filter_map(|name| wal_number(name)).collect();
             let max = numbers.iter().copied().max().unwrap_or(0);
             let min = numbers.iter().copied().min().unwrap_or(0);
-            let to = match splitmix(rng) % 4 {
-                0 => max + 1,
-                1 => max + 3,
-                2 => min.saturating_sub(1),
-                _ => min + splitmix(rng) % (max - min + 2),
+            let to = match splitmix(rng) % 9 {
+                0 | 1 => max.saturating_add(1),
+                2 | 3 => max.saturating_add(3),
+                4 | 5 => min.saturating_sub(1),
+                // the largest numbers the name format can carry (the parser accepts them by design)
+                6 => u64::MAX - (splitmix(rng) % 2),
+                _ => min.saturating_add(splitmix(rng) % (max - min).saturating_add(2)),
             };
             Some(CDamage::Copy { from, to: wal_name(to) })
         }
@@ -325,7 +327,7 @@ impl Property for C10 {
 
     fn assumptions(&self) -> Vec<String> {
         vec![
-            "duplicated files get numbers within [min-1, max+3] of the existing run (numbers near u64::MAX are not derived)".to_string(),
+            "duplicated files get numbers within [min-1, max+3] of the existing run, or u64::MAX / u64::MAX-1 (the largest the name format carries)".to_string(),
             "hang detection is deterministic only through the block-load counter; a pure CPU loop is caught by the 60 s watchdog".to_string(),
         ]
     }
